@@ -1,6 +1,8 @@
 import IcyVerif.Lemmas.SixelCap
 import IcyVerif.Lemmas.SixelRaster
 import IcyVerif.Lemmas.SixelQueue
+import IcyVerif.Lemmas.SixelLoad
+import IcyVerif.Lemmas.SixelScale
 /-! # C14 — sixel images are complete rectangles and appear in arrival order
 Only property theorems and non-vacuity examples live here.
 
@@ -8,12 +10,14 @@ Only property theorems and non-vacuity examples live here.
     rectangularity, consistency with a raster declaration, panic freedom.
 (b) `Buffer::update_sixel_threads` (model `IcyVerif.SixelQueue.poll`): schedule independence,
     non-blocking, no loss / no duplication.
+(c) the file-loading path `parse_with_parser` (model `IcyVerif.SixelLoad.loadSixels`) and the hand-off in
+    `execute_dcs` (`IcyVerif.SixelLoad.classify`, `IcyVerif.Sixel.decode`): every delivered image becomes exactly
+    one image layer, newest first, cell size = ceiling, independent of the completion schedule; the covering rule
+    removes nothing but covered images; the picture does not depend on the DCS parameters.
 
 Partial (named here and in the evidence): the OS scheduler and the memory ordering of
 `JoinHandle::is_finished` are not modelled — completions enter the model as `finish` events;
-payload numbers above `hugeLimit` end the model with `Out.huge` (finding `alloc`);
-the sixel cursor's `i32` arithmetic can still panic after ≥ 357 913 941 cursor moves
-(`sixel_total_partial`, `sixel_total_false`, finding `translate_sixel_to_pixel:overflow`). -/
+payload numbers above `hugeLimit` end the model with `Out.huge` (finding `alloc`). -/
 namespace IcyVerif.C14
 open IcyVerif
 
@@ -87,29 +91,13 @@ theorem sixel_raster_consistent (hdr rest : List Char) (c : Char) (s : St) (W H 
   simp only [he, if_true] at this
   simp only [finish]; omega
 
-/-- **No panic except cursor overflow** (every char list): the only panic sites the parser can reach are
-    the three `i32` operations on the sixel cursor; every index, slice and `%` is safe. -/
-theorem sixel_total_partial (payload : List Char) (p : Site) (h : parse payload = .panic p) : isCursor p := by
-  unfold parse mapOut at h
-  have := run_good good_init (payload ++ ['#'])
-  revert this h
-  cases run {} (payload ++ ['#']) with
-  | ok s => intro h; simp [Out.andThen] at h
-  | err e => intro h; simp [Out.andThen] at h
-  | panic q => intro h g; simp only [Out.andThen] at h; injection h with h; subst h; exact g
-  | huge => intro h; simp [Out.andThen] at h
-
-/-- **No panic** whenever the numbers in the payload are bounded: if all numeric parameters stay ≤ R during
-    the run and `(length + 1) * max R 1` cursor moves cannot reach `i32::MAX / 6`, the parser returns an image,
-    a parse error or the out-of-range outcome — for the property's quantifier (`!` repeats ≤ 500) that is every
-    payload shorter than 715 000 characters.
-    The FULL statement `∀ payload p, parse payload ≠ .panic p` is FALSE on the tree, see `sixel_total_false`
-    (finding `translate_sixel_to_pixel:overflow`); hence `_partial`. -/
-theorem sixel_total_bounded_partial (payload : List Char) (R : Nat) (hm : numsLe R {} (payload ++ ['#']) = true)
-    (hb : ((payload.length + 1) * max R 1) * 6 ≤ i32Max) (p : Site) : parse payload ≠ .panic p := by
+/-- **No panic** (every char list): the parser returns an image, a parse error or the out-of-range outcome
+    `huge`; every index, slice, `%` and — since the three cursor `fix:` commits — every `i32` operation is safe.
+    (Before those commits the statement was false: `sixel_cursor_overflow_is_error` shows the input.) -/
+theorem sixel_total (payload : List Char) (p : Site) : parse payload ≠ .panic p := by
   intro h
   unfold parse mapOut at h
-  have := run_cap R (payload ++ ['#']) good_init hm (by simp at hb ⊢; omega) (by simp at hb ⊢; omega)
+  have := run_good good_init (payload ++ ['#'])
   revert this h
   cases run {} (payload ++ ['#']) with
   | ok s => intro h; simp [Out.andThen] at h
@@ -117,15 +105,21 @@ theorem sixel_total_bounded_partial (payload : List Char) (R : Nat) (hm : numsLe
   | panic q => intro _ g; exact g
   | huge => intro h; simp [Out.andThen] at h
 
-/-- the full totality statement is false on the tree: `!357913942-~` moves the cursor down 357 913 942 bands,
-    then `y * 6` overflows `i32` in `translate_sixel_to_pixel` (replayed on the real code on every run) -/
-theorem sixel_total_false : ¬ ∀ payload p, parse payload ≠ .panic p := by
+/-- the same for `Sixel::parse_from` with any scales (what `execute_dcs` calls) -/
+theorem decode_total (hs vs : Nat) (payload : List Char) (p : Site) : decode hs vs payload ≠ .panic p := by
   intro h
-  apply h "!357913942-~".toList .cursorY6
+  have := decode_img hs vs payload
+  rw [h] at this
+  exact sixel_total payload p this.symm
+
+/-- `!357913942-~` moves the cursor down 357 913 942 bands; `y * 6` then leaves `i32`: formerly an overflow panic
+    in the decode thread (the image silently vanished), now `Err(InvalidPictureSize)` (replayed on the real code on
+    every run) -/
+theorem sixel_cursor_overflow_is_error : parse "!357913942-~".toList = .err .invalidPictureSize := by
   have h1 : run {} "!357913942".toList = .ok { state := .repeat_, nums := [357913942] } := by decide
   have e : "!357913942-~".toList ++ ['#'] = "!357913942".toList ++ ['-', '~', '#'] := by decide
   unfold parse mapOut
-  rw [e, run_append, h1, ok_andThen, cursor_panic 357913942 (by decide) (by decide) (by decide), panic_andThen]
+  rw [e, run_append, h1, ok_andThen, cursor_overflow_err 357913942 (by decide) (by decide) (by decide), err_andThen]
 
 /-- the pinned tree (before `fix: sixel rows are padded …`) violates rectangularity -/
 theorem sixel_rect_pinned_false :
@@ -142,7 +136,6 @@ example : parse "#1;2;100;0;0!3~-!2?".toList = .ok ⟨3, 12, 144⟩ := by decide
 /-- a raster attribute declaring 3×2 before data that is 5 wide and 18 high: clipped to 2 rows, 5 wide -/
 example : run {} "\"1;1;3;2".toList = .ok { state := .readSize, nums := [1, 1, 3, 2] } := by decide
 example : parse "\"1;1;3;2~~~~~-~-~".toList = .ok ⟨5, 2, 40⟩ := by decide
-example : numsLe 500 {} ("#1;2;100;0;0!3~-!2?".toList ++ ['#']) = true := by decide
 example : parse " ".toList = .err .invalidSixelChar := by decide
 /-- numbers beyond the modelled range -/
 example : parse "\"1;1;2147483599~".toList = .huge := by decide
@@ -152,8 +145,9 @@ end Rect
 section Queue
 open IcyVerif.SixelQueue
 
-/-- **Schedule independence.** For EVERY sequence of arrivals, thread completions and polls (any
-    interleaving, any completion order, any number of polls anywhere): the ids popped so far are a prefix
+/-- **Schedule independence.** For EVERY sequence of arrivals, thread completions, polls and clear-screens (any
+    interleaving, any completion order, any number of polls anywhere; `arrivals` = the ids that arrived since the
+    last clear-screen): the ids popped so far are a prefix
     `popped` of the arrival order, the rest is still queued in arrival order, and the layer is exactly what
     placing the successfully decoded images of `popped` one after the other in ARRIVAL order gives.
     In particular once the queue is empty the layer depends on the arrival order only. -/
@@ -193,9 +187,10 @@ theorem all_delivered_after_polls (cfg : Cfg) (evs : List Ev) (hf : AllFinished 
   have ha : arrivals (evs ++ List.replicate (run cfg evs).queue.length Ev.poll) = arrivals evs := by
     rw [arrivals_append]
     generalize (run cfg evs).queue.length = n
+    generalize arrivals evs = a
     induction n with
-    | zero => simp [arrivals]
-    | succ n ih => simpa [List.replicate_succ, arrivals] using ih
+    | zero => rfl
+    | succ n ih => simpa [List.replicate_succ, arrStep] using ih
   rw [← ha]; exact e hq
 
 /-- **Polling never blocks**: in every reachable state `update_sixel_threads` returns without calling
@@ -266,6 +261,12 @@ theorem no_loss (cfg : Cfg) (evs : List Ev) (pre post : List (Nat × Option Res)
     exact mem_okIds (by simp [hid]) hres
   · exact pollLoop_ok_head cfg _ _ _ false b hr
 
+/-- **Clear-screen**: whatever happened before it — images shown, decodes queued or still running — the state
+    after a clear-screen is the initial one, so nothing that arrived before it can ever appear afterwards,
+    whenever its decode finishes -/
+theorem clear_forgets (cfg : Cfg) (pre post : List Ev) : run cfg (pre ++ Ev.clear :: post) = run cfg post := by
+  simp [run, List.foldl_append, step]
+
 /-! non-vacuity: three images, the third covers the first; decodes finish in the order 2, 0, 1 with a poll
     after each completion -/
 def exCfg : Cfg := { fw := 8, fh := 16, res := fun
@@ -279,6 +280,198 @@ example : (run exCfg exSched).log = [0, 1, 2] := by decide
 example : (run exCfg exSched).queue = [] := by decide
 example : (run exCfg [.arrive 0, .arrive 1, .finish 1, .poll]).layer = [] := by decide
 example : AllFinished (run exCfg [.arrive 0, .arrive 1, .finish 1, .finish 0]).queue := by unfold AllFinished; decide
+example : (run exCfg [.arrive 0, .arrive 1, .finish 0, .poll, .clear, .finish 1, .poll, .arrive 2, .finish 2, .poll]).layer.map (·.id) = [2] := by
+  decide
 
 end Queue
+section Load
+open IcyVerif.SixelQueue IcyVerif.SixelLoad
+
+/-- the loader's sixel code is the code the model was written against: the translator copies the text of the
+    join loop and of the sixel-to-layer loop of `parse_with_parser` and the `vertical_scale` table of
+    `execute_dcs`; any edit there breaks this obligation until the model has been revisited -/
+theorem load_source_unchanged :
+    Gen.Sixel.src_sixel_to_layers = [
+      "while !result.sixel_threads.is_empty() {",
+      "thread::sleep(Duration::from_millis(50));",
+      "result.update_sixel_threads()?;",
+      "}",
+      "let mut num = 0;",
+      "while !result.layers[0].sixels.is_empty() {",
+      "if let Some(mut sixel) = result.layers[0].sixels.pop() {",
+      "let size = sixel.get_size();",
+      "let font_size = result.get_font_dimensions();",
+      "let size = Size::new(",
+      "(size.width + font_size.width - 1) / font_size.width,",
+      "(size.height + font_size.height - 1) / font_size.height,",
+      ");",
+      "num += 1;",
+      "let mut layer = Layer::new(fl!(crate::LANGUAGE_LOADER, \"layer-new-sixel_layer_name\", number = num), size);",
+      "layer.role = Role::Image;",
+      "layer.set_offset(sixel.position);",
+      "sixel.position = Position::default();",
+      "layer.sixels.push(sixel);",
+      "result.layers.push(layer);",
+      "}",
+      "}"] ∧
+    Gen.Sixel.vscaleTable.all (fun e => e.1.all fun n => vscaleOf [n] = e.2) = true ∧
+    vscaleOf [] = Gen.Sixel.vscaleNone ∧ vscaleOf [7] = Gen.Sixel.vscaleOther ∧ vscaleOf [1000] = Gen.Sixel.vscaleOther := by
+  decide
+
+/-- **No loss, no duplicate on the file-loading path** (every list of delivered sixels): the conversion loop
+    creates exactly one image layer per sixel on `layers[0]`, in REVERSE delivery order (newest first — `pop`
+    takes the last), numbered 1, 2, …; the k-th layer carries the (k+1)-th newest sixel with its pixel size, sits
+    at that sixel's cell position and is `cells` wide and high — zero-size images included. -/
+theorem load_one_layer_per_image (fw fh : Int) (sixels : List Img) :
+    (toLayers fw fh sixels).length = sixels.length ∧
+    (toLayers fw fh sixels).map (·.id) = (sixels.map (·.id)).reverse ∧
+    ((toLayers fw fh sixels).map (·.id)).Perm (sixels.map (·.id)) ∧
+    (toLayers fw fh sixels).map (·.num) = List.range' 1 sixels.length ∧
+    ∀ k, (toLayers fw fh sixels)[k]? = (sixels.reverse[k]?).map (fun i => mkLayer fw fh (k + 1) i) := by
+  refine ⟨toLayers_length fw fh sixels, toLayers_ids fw fh sixels, ?_, toLayers_nums fw fh sixels,
+    toLayers_getElem? fw fh sixels⟩
+  rw [toLayers_ids]
+  exact List.reverse_perm _
+
+/-- **Cell size = ceiling of pixel size / font size**, for every non-negative pixel size and positive font size;
+    an image without pixels gets a layer of 0 cells (and still gets its layer, `load_one_layer_per_image`). -/
+theorem load_cell_size (fw fh : Int) (num : Nat) (i : Img) (hfw : 0 < fw) (hfh : 0 < fh) (hw : 0 ≤ i.w) (hh : 0 ≤ i.h) :
+    let l := mkLayer fw fh num i
+    (0 ≤ l.cw ∧ (l.cw - 1) * fw < i.w ∧ i.w ≤ l.cw * fw) ∧ (0 ≤ l.ch ∧ (l.ch - 1) * fh < i.h ∧ i.h ≤ l.ch * fh) ∧
+      (i.w = 0 → l.cw = 0) ∧ (i.h = 0 → l.ch = 0) ∧ l.offX = i.px ∧ l.offY = i.py ∧ l.pw = i.w ∧ l.ph = i.h := by
+  intro l
+  refine ⟨cells_ceil i.w fw hfw hw, cells_ceil i.h fh hfh hh, ?_, ?_, rfl, rfl, rfl, rfl⟩
+  · intro h; show cells i.w fw = 0; rw [h]; exact cells_zero fw hfw
+  · intro h; show cells i.h fh = 0; rw [h]; exact cells_zero fh hfh
+
+/-- what the load must produce, computed without any queue: an error if a decode returned one, otherwise the
+    image layers of the arrival-order placement -/
+def loadRef (cfg : Cfg) (arr : List Nat) : LoadOut :=
+  if arr.any (fun id => cfg.res id == .err) then .err
+  else if (cfg.fw = 0 ∨ cfg.fh = 0) ∧ placeAll cfg (okImgs cfg arr) ≠ [] then .divZero
+  else .ok (toLayers cfg.fw cfg.fh (placeAll cfg (okImgs cfg arr)))
+
+/-- **Schedule independence of a load.** `arr` arrived in this order; the decode threads complete during the
+    sleeps of the join loop in ANY order and grouping `sched` (every decode completes at some point).  The load
+    ends (never `waiting`, never `blocked`) with the result `loadRef` that depends on the arrival order only. -/
+theorem load_schedule_independent (cfg : Cfg) (arr : List Nat) (sched : List (List Nat))
+    (hc : ∀ id ∈ arr, id ∈ sched.flatten) : loadSixels cfg arr sched = loadRef cfg arr := by
+  have h := joinLoop_ok cfg arr sched [] (arrived cfg arr) (arrived_inv cfg arr sched hc)
+  unfold loadSixels loadFrom loadRef
+  revert h
+  generalize joinLoop cfg sched (arrived cfg arr) = r
+  obtain ⟨s, ret⟩ := r
+  cases ret with
+  | done =>
+    intro ⟨hq, popped, g, hne⟩
+    have hsplit := g.split
+    rw [hq] at hsplit
+    simp only [ids, List.map_nil, List.append_nil] at hsplit
+    subst hsplit
+    have hany : (arr.any fun id => cfg.res id == .err) = false := by
+      rw [List.any_eq_false]
+      intro id hid
+      have := hne id hid
+      simpa using this
+    simp only [hany, Bool.false_eq_true, if_false, g.layer]
+  | err =>
+    intro ⟨id, hid, he⟩
+    have hany : (arr.any fun id => cfg.res id == .err) = true := by
+      rw [List.any_eq_true]
+      exact ⟨id, hid, by simp [he]⟩
+    simp only [hany, if_true]
+  | blocked => intro h; exact absurd h id
+  | waiting => intro h; exact absurd h id
+
+/-- the join loop never joins a running thread, even under a schedule in which some decode never completes -/
+theorem load_never_blocks (cfg : Cfg) (arr : List Nat) (sched : List (List Nat)) :
+    loadSixels cfg arr sched ≠ .blocked := by
+  have h := joinLoop_not_blocked cfg arr sched [] (arrived cfg arr) (arrived_inv cfg arr [arr] (by simp)).good
+  unfold loadSixels loadFrom
+  revert h
+  generalize joinLoop cfg sched (arrived cfg arr) = r
+  obtain ⟨s, ret⟩ := r
+  cases ret <;> simp
+  split <;> simp
+
+/-- **End to end**: if no decode returns an error and the font has a size, the load creates one image layer per
+    image of the arrival-order placement `placeAll` — the images that arrived minus those a later image covers —
+    newest first; no other layer, none twice. -/
+theorem load_no_loss (cfg : Cfg) (arr : List Nat) (sched : List (List Nat)) (hc : ∀ id ∈ arr, id ∈ sched.flatten)
+    (hne : ∀ id ∈ arr, cfg.res id ≠ .err) (hfw : 0 < cfg.fw) (hfh : 0 < cfg.fh) :
+    ∃ layers, loadSixels cfg arr sched = .ok layers ∧
+      layers.length = (placeAll cfg (okImgs cfg arr)).length ∧
+      layers.map (·.id) = ((placeAll cfg (okImgs cfg arr)).map (·.id)).reverse := by
+  refine ⟨toLayers cfg.fw cfg.fh (placeAll cfg (okImgs cfg arr)), ?_, toLayers_length _ _ _, toLayers_ids _ _ _⟩
+  rw [load_schedule_independent cfg arr sched hc]
+  unfold loadRef
+  have hany : (arr.any fun id => cfg.res id == .err) = false := by
+    rw [List.any_eq_false]; intro id hid; simpa using hne id hid
+  have hz : ¬ ((cfg.fw = 0 ∨ cfg.fh = 0) ∧ placeAll cfg (okImgs cfg arr) ≠ []) := by
+    intro ⟨h, _⟩; omega
+  simp only [hany, Bool.false_eq_true, if_false, hz]
+
+/-- **Clear-screen in a file**: only arrivals and clear-screens happen while the text is parsed, and the load then
+    behaves as if just the sequences after the last clear-screen had arrived — images that arrived before a
+    clear-screen never appear, the others are subject to `load_schedule_independent` / `load_no_loss`. -/
+theorem load_text_clear (cfg : Cfg) (text : List Ev) (sched : List (List Nat)) (h : ∀ e ∈ text, TextEv e) :
+    loadText cfg text sched = loadSixels cfg (arrivals text) sched ∧
+    ∀ pre post, text = pre ++ Ev.clear :: post → arrivals text = arrivals post := by
+  refine ⟨by unfold loadText loadSixels; rw [run_text cfg text h], ?_⟩
+  intro pre post hp
+  subst hp
+  simp [arrivals, List.foldl_append, arrStep]
+
+/-- **The covering rule loses nothing but covered images**: the picture is a sub-sequence of the decoded images
+    in arrival order (no reordering, no duplicate); an image that is not shown is covered by an image that
+    arrived LATER; the newest image is always shown, on top. -/
+theorem placement_loses_only_covered (cfg : Cfg) (imgs : List Img) :
+    (placeAll cfg imgs).Sublist imgs ∧
+    (∀ pre i post, imgs = pre ++ i :: post → i ∈ placeAll cfg imgs ∨ ∃ j ∈ post, covers cfg j i = true) ∧
+    (∀ pre i, imgs = pre ++ [i] → (placeAll cfg imgs).getLast? = some i) := by
+  refine ⟨placeAll_sublist cfg imgs, ?_, ?_⟩
+  · intro pre i post h; subst h; exact placeAll_lost_only_if_covered cfg pre post i
+  · intro pre i h; subst h; exact placeAll_newest cfg pre i
+
+/-- **The DCS hand-off** (`execute_dcs`): a DCS string made of numeric parameters, `q` and a payload starts a decode
+    of exactly that payload (whatever the parameters), with `vertical_scale` ∈ {1,2,3,5} chosen by the first
+    parameter; and what the decode returns is the picture of `parse payload` — its sizes, its byte count, its
+    error — independent of the scales: so `sixel_rect`, `sixel_raster_consistent` and `sixel_total_partial`
+    hold for every image the terminal or a file can deliver. -/
+theorem dcs_handoff (params payload : List Char) (hp : ∀ c ∈ params, IsParam c) :
+    ∃ vs bg, classify (params ++ 'q' :: payload) = .sixel vs bg payload ∧ (vs = 1 ∨ vs = 2 ∨ vs = 3 ∨ vs = 5) ∧
+      Sixel.mapOut (·.img) (Sixel.decode 1 vs payload) = Sixel.parse payload ∧
+      ∀ d, Sixel.decode 1 vs payload = .ok d → d.img.dataLen = d.img.w * d.img.h * 4 := by
+  refine ⟨_, _, classify_sixel params payload hp, vscaleOf_range _, Sixel.decode_img 1 _ payload, ?_⟩
+  intro d hd
+  have h := Sixel.decode_img 1 (vscaleOf (dcsNumbers [] params).1) payload
+  rw [hd] at h
+  exact (sixel_rect payload d.img h.symm).1
+
+/-! non-vacuity -/
+/-- five sequences as in a file: painted, all-background, empty, raster 0×0, a big one covering the first -/
+def exLoadCfg : Cfg := { fw := 8, fh := 16, res := fun
+  | 0 => .ok ⟨0, 0, 0, 4, 6⟩
+  | 1 => .ok ⟨1, 2, 1, 0, 12⟩
+  | 2 => .ok ⟨2, 4, 2, 0, 0⟩
+  | 3 => .panicked
+  | 4 => .ok ⟨4, 0, 0, 20, 12⟩
+  | _ => .err }
+example : loadSixels exLoadCfg [0, 1, 2, 3, 4] [[4, 2], [], [0, 3, 1]] =
+    .ok [⟨1, 0, 0, 3, 1, 4, 20, 12⟩, ⟨2, 4, 2, 0, 0, 2, 0, 0⟩, ⟨3, 2, 1, 0, 1, 1, 0, 12⟩] := by decide
+example : loadSixels exLoadCfg [0, 1, 5, 2] [[0, 1, 5, 2]] = .err := by decide
+example : loadSixels exLoadCfg [0, 1] [[1]] = .waiting := by decide
+example : loadText exLoadCfg [.arrive 0, .arrive 4, .clear, .arrive 1, .arrive 2] [[2, 1]] =
+    .ok [⟨1, 4, 2, 0, 0, 2, 0, 0⟩, ⟨2, 2, 1, 0, 1, 1, 0, 12⟩] := by decide
+example : classify "0;1q#1~".toList = .sixel 2 true "#1~".toList := by decide
+example : classify "2q~".toList = .sixel 5 false "~".toList := by decide
+example : classify ";3q~".toList = .sixel 3 false "~".toList := by decide
+example : classify "CTerm:Font:0:AAAA".toList = .font := by decide
+example : classify "1;0;0!z41".toList = .macroDef [1, 0, 0] := by decide
+example : classify "xq~".toList = .unsupported := by decide
+example : Sixel.decode 1 5 "\"7;9~".toList = .ok ⟨⟨1, 6, 24⟩, 9, 7⟩ := by decide
+example : cells 0 8 = 0 ∧ cells 1 8 = 1 ∧ cells 8 8 = 1 ∧ cells 9 8 = 2 := by decide
+
+end Load
+
 end IcyVerif.C14
